@@ -46,12 +46,13 @@ C20Check(ev) ==
 (* ---------------------------------------------------------------- C19 *)
 Importable == {"builtin", "builtin2", "module", "nested", "baseonly", "eqhash", "dcerr", "attr"}
 Rebuildable == Importable \cup {"local", "dynamic"}            \* cls(args...) reproduces the instance
-ArgsRepr(enc, a) == a \in {"none", "json", "const"} \/ (enc = "pickle" /\ a = "picklable")
+(* text with lone surrogates is not valid JSON text: replaced by its text form there, kept by pickle (FX-C19-1) *)
+ArgsRepr(enc, a) == a \in {"none", "json", "const"} \/ (enc = "pickle" /\ a \in {"picklable", "surrogate"})
 (* custominit / kwonly / mid store their own args via super().__init__: representable iff those are plain *)
 NodeArgsRepr(enc, nd) == IF nd.c \in {"custominit", "kwonly", "mid", "dcerr"} THEN TRUE ELSE ArgsRepr(enc, nd.a)
 MustBeFaithful(enc, nd) == nd.c \in Importable /\ nd.c \in Rebuildable /\ NodeArgsRepr(enc, nd)
 (* pickle keeps any picklable exception object as it is *)
-PickleKeeps(nd) == nd.c \in (Importable \cup {"custominit_x"}) /\ nd.a \in {"none", "json", "picklable"}
+PickleKeeps(nd) == nd.c \in (Importable \cup {"custominit_x"}) /\ nd.a \in {"none", "json", "picklable", "surrogate"}
 
 NodeOK(enc, nd, t) ==
   /\ t.is_exc
